@@ -88,8 +88,14 @@ def judge(prog: Program, run: dict[str, Any], info: dict[str, Any]) -> list[dict
             wf_done_seq = r["seq"]
     for r in h.audit:
         if r["kind"] == "claim_del" and (wf_done_seq is None or r["seq"] < wf_done_seq):
-            problems.append(("live-claim-deleted", f"claim {r['row_id']} of a live execution was deleted by {r['ctx']}", "claim-deleted"))
-            break
+            # only deletions that re-open the exclusion count: a deferred-choice claim is decided once per execution;
+            # a mutex claim protects its owner while that stage runs (a finished owner's claim is stealable anyway)
+            key = str(r["row_id"]).split("/", 1)[-1]
+            owner_st = h.stage_status_at(str(r["old"]), r["seq"])
+            if key.startswith("choice:") or owner_st in ("RUNNING", "NOT_STARTED", None):
+                problems.append(("live-claim-deleted", f"claim {r['row_id']} (owner stage {h.key_of_stage(str(r['old']))}: {owner_st}) of a "
+                                                       f"live execution was deleted by {r['ctx']}", "claim-deleted"))
+                break
     _ = live_wf
     if run["quiescent"]:
         fs = run["fs"]
